@@ -131,13 +131,19 @@ theorem map_replacePlaceholders_eq (m : PlaceholderMap) (Γ : Theory) :
     Γ.map (Formula.replacePlaceholders m) = Γ.map (Formula.substSym (phTheta m)) :=
   List.map_congr_left fun F _ => Formula.replacePlaceholders_eq m F
 
+theorem missingOutputs_substSym (t : ExternalTask) (ν : String → Pre) (p : Program) :
+    missingOutputs t (p.substSym ν) = missingOutputs t p := by
+  unfold missingOutputs
+  rw [Program.preds_substSym]
+
 /-- `theory_translate` with placeholders: for every interpretation `J`, the resulting theory is
     equivalent under `J` to the completion of tau* of the program `p[ν]`, where `ν` replaces every
-    placeholder by the precomputed term `J` assigns to it. -/
+    placeholder by the precomputed term `J` assigns to it, together with the emptiness of the output
+    predicates the program does not mention. -/
 theorem theoryTranslate_ok_ph (t : ExternalTask) (m : PlaceholderMap) (fuel : Nat) (p : Program) (th : Theory)
     (h : theoryTranslate t m fuel p = .ok th) :
     globalsPanic p = false ∧ ∀ (J : Interp), ∃ Γ, completion (tauStar (p.substSym (phNu m J.fc))) t.userGuide.inputs = some Γ ∧
-      ∀ (ρ : Asg), (∀ F ∈ th, sat J F ρ) ↔ ∀ F ∈ Γ, sat J F ρ := by
+      ∀ (ρ : Asg), (∀ F ∈ th, sat J F ρ) ↔ (∀ F ∈ Γ, sat J F ρ) ∧ OutputsEmpty t p J.pred := by
   unfold theoryTranslate at h
   split at h
   · cases h
@@ -152,13 +158,17 @@ theorem theoryTranslate_ok_ph (t : ExternalTask) (m : PlaceholderMap) (fuel : Na
       simp only [hc, Option.map_some] at h
       refine ⟨Γ0.map (Formula.substSym (thetaOf (phNu m J.fc))), ?_, fun ρ => ?_⟩
       · rw [tauStar_substSym, completion_substSym (thetaOf_closed _), hc]; rfl
-      · have hequiv : (∀ F ∈ Γ0.map (Formula.substSym (phTheta m)), sat J F ρ) ↔
-            ∀ F ∈ Γ0.map (Formula.substSym (thetaOf (phNu m J.fc))), sat J F ρ := by
+      · have hequiv : (∀ F ∈ Γ0.map (Formula.substSym (phTheta m)) ++
+              (missingOutputs t p).map (fun q => completeDefinition (atomFromPred q) []), sat J F ρ) ↔
+            (∀ F ∈ Γ0.map (Formula.substSym (thetaOf (phNu m J.fc))), sat J F ρ) ∧ OutputsEmpty t p J.pred := by
+          rw [List.forall_mem_append, emptyDefs_sat]
+          refine and_congr ?_ Iff.rfl
           simp only [List.mem_map, forall_exists_index, and_imp, forall_apply_eq_imp_iff₂]
           exact forall_congr' fun F => imp_congr_right fun _ =>
             sat_substSym_congr J _ _ (fun s ρ' => phTheta_eval m J.fc s ρ') F ρ
         split at h
-        · cases hs : simplifyTheory .classic fuel (Γ0.map (Formula.substSym (phTheta m))) with
+        · cases hs : simplifyTheory .classic fuel (Γ0.map (Formula.substSym (phTheta m)) ++
+              (missingOutputs t p).map (fun q => completeDefinition (atomFromPred q) [])) with
           | none => simp [hs] at h
           | some th' =>
             simp only [hs] at h
